@@ -1,6 +1,7 @@
 # ruff: noqa: SIM113
 import collections.abc
 from collections.abc import Iterable, Mapping
+from dataclasses import is_dataclass
 from inspect import isabstract
 from typing import Callable
 
@@ -65,8 +66,13 @@ class IterableProvider(MorphingProvider):
         if issubclass(norm.origin, collections.abc.Mapping):
             raise CannotProvide
 
-        # generic NamedTuple or pydantic model with one type parameter is a model, not an iterable
-        if is_named_tuple_class(norm.origin) or is_pydantic_class(norm.origin):
+        # generic model with one type parameter is a model, not an iterable, even if it defines `__iter__`
+        if (
+            is_named_tuple_class(norm.origin)
+            or is_pydantic_class(norm.origin)
+            or is_dataclass(norm.origin)
+            or hasattr(norm.origin, "__attrs_attrs__")
+        ):
             raise CannotProvide
 
         return norm, arg
